@@ -32,11 +32,12 @@ def main(tier, seed):
         # are different labels, so the trace shows which way the walk went. Real execute_one vs the definition.
         def prep(kind, d):
             """commands leaving v on top of stack 3: integers around d, fractions d +- 1/2, negatives, NaN"""
-            if kind == "int": return [push(rng.choice([d - 1, d, d + 1, 0, 2 * d]))]
+            if kind == "int": return [push(rng.choice([max(d - 1, 0), d, d + 1, 0, 2 * d]))]
+            if kind == "negfrac": return [push(rng.choice([1, 2 * d + 1])), push(2), (4, 1, 9, None), (2, 2, 3, None), (3, 1, 9, None)]
             if kind == "neg": return [push(rng.choice([1, d, d + 1])), (3, 1, 9, None)]
             if kind == "nan": return [push(7), push(0), (4, 1, 9, None)]                 # 1/0 on a non-empty stack
             if kind == "empty": return []                                                # pop from the empty stack: NaN
-            num = rng.choice([2 * d - 1, 2 * d + 1, 2 * d, 1])                           # num/2
+            num = rng.choice([abs(2 * d - 1), 2 * d + 1, 2 * d, 1])                      # num/2
             return [push(num), push(2), (4, 1, 9, None), (2, 2, 3, None)]
         bcases = []
         for _ in range(400 if tier == "quick" else 6000):
@@ -44,7 +45,15 @@ def main(tier, seed):
             hl, hr = rng.sample(range(2, 13), 2)
             op = rng.choice([0, 1])
             area = (op, leaf(hl), leaf(hr)) if rng.random() < 0.7 else (0, (1, leaf(hl), leaf(hr)), leaf(rng.choice([2, 3]))) if op == 0 else (1, leaf(hl), (0, leaf(hr), None))
-            p = prep(rng.choice(["int", "int", "frac", "frac", "neg", "nan", "empty"]), d) + [(5, 1, d, area)]
+            kind = rng.choice(["int", "int", "frac", "frac", "neg", "negfrac", "nan", "empty"])
+            if rng.random() < 0.6:
+                p = prep(kind, d) + [(5, 1, d, area)]
+            else:
+                # the comparing command is a sum: `syl` dummies are popped and their sum goes to stack `dots` (never 1-3), the
+                # area then pops the prepared value and compares it with syl x dots - including the count 0 of a command
+                # without dots (seeded change C07-zero-count-sign-shortcut)
+                syl = rng.choice([1, 1, 2, 3]); dots = rng.choice([0, 0, 0, 4, 5, 7])
+                p = prep(kind, syl * dots) + [push(1)] * syl + [(1, syl, dots, area)]
             bcases.append("one %s - 50" % enc_prog(p))
         bi = impl_exec(bcases); bs = model_exec(bcases, spec=True); bm = model_exec(bcases)
         for c, a, sdef, m in zip(bcases, bi, bs, bm):
